@@ -167,7 +167,7 @@ def run(ctx):
         shapes.setdefault(shape, []).append(cls)
     traces = []
     calls = [0]
-    nvals = 1 if quick else 4
+    nvals = 2 if quick else 5
     for shape, classlists in shapes.items():
         nleaf = len(classlists[0])
         classlists = [c for c in sorted(set(classlists)) if supported(shape, c)]
@@ -178,6 +178,9 @@ def run(ctx):
         for _ in range(nvals):
             leaves = [rnd.choice(LEAVES) if rnd.random() < 0.8 else
                       (rnd.random() < 0.5, rnd.randrange(0, 1296000), rnd.randrange(0, NANO)) for _ in range(nleaf)]
+            if nleaf == 2 and shape[-1][0] in CMP and _ == 0:
+                # comparisons of EQUAL angles held in different notations (and a nano-arc-second apart)
+                leaves = [leaves[0], leaves[0] if rnd.random() < 0.7 else (leaves[0][0], leaves[0][1], (leaves[0][2] + 1) % NANO)]
             evs = []
             for cl in classlists:
                 e, ok = evaluate(an, shape, cl, leaves, calls)
